@@ -7,7 +7,11 @@
                  cobs = TagVal right after the ${} processor (observer at Priority Order 5) or the
                  outcome class (error / panic / hang)
      2  strconv  strconv2.ParseAny(cin) = cvobs, FormatAny of it = cobs
-     3  format   strconv2.FormatAny(cvobs) = cobs, cvobs read back from the real Configure *)
+     3  format   strconv2.FormatAny(cvobs) = cobs, cvobs read back from the real Configure
+
+   cfix = the variant of the ${} callback the tree under test has, read off the running code by a facts probe
+   (tools/props/c16.py): true = repair D-C17g (a float64 is spliced by FormatFloat(f,'f',-1,64)), false = the
+   unrepaired callback (FormatAny).  Kinds 2 and 3 call strconv2 directly and do not depend on it. *)
 From Coq Require Import List NArith ZArith Bool Arith.
 From IocVerif Require Import Model.Strconv Model.Placeholder.
 Import ListNotations.
@@ -22,7 +26,8 @@ Record case := mkCase {
   cast : list tpart;          (* the AST the generator rendered cin from; [] when there is none *)
   cstrict : bool;             (* the generator claims: cin = render cast *)
   cobs : outcome;
-  cvobs : cval
+  cvobs : cval;
+  cfix : bool
 }.
 
 Fixpoint table_get (k : bytes) (t : list (bytes * res bytes)) : res bytes :=
@@ -46,7 +51,7 @@ Definition outcome_eqb (a b : outcome) : bool :=
 Definition model_fun (c : case) : bytes -> res bytes :=
   match ckind c with
   | 0%nat => table_fun (ctable c)
-  | _ => resolve (cfg_of (ccfg c))
+  | _ => resolve (cfix c) (cfg_of (ccfg c))
   end.
 
 Definition model_out (c : case) : outcome :=
@@ -65,7 +70,7 @@ Definition step_in_fragment (cfg : bytes -> cval) (exp : bytes) : bool :=
     end
   else val_in_fragment v.
 
-Fixpoint rac_in_fragment (cfg : bytes -> cval) (fuel : nat) (s : bytes) : bool :=
+Fixpoint rac_in_fragment (fx : bool) (cfg : bytes -> cval) (fuel : nat) (s : bytes) : bool :=
   match find_first b_dollar s with
   | None => true
   | Some (i, n) =>
@@ -74,14 +79,14 @@ Fixpoint rac_in_fragment (cfg : bytes -> cval) (fuel : nat) (s : bytes) : bool :
     | S k =>
       let elr := firstn n (skipn i s) in
       step_in_fragment cfg (content elr) &&
-        match resolve cfg (content elr) with
-        | Ok r => rac_in_fragment cfg k (replace_first s elr r)
+        match resolve fx cfg (content elr) with
+        | Ok r => rac_in_fragment fx cfg k (replace_first s elr r)
         | _ => true
         end
     end
   end.
 
-Definition e2e_in_fragment (c : case) : bool := rac_in_fragment (cfg_of (ccfg c)) repo_budget (cin c).
+Definition e2e_in_fragment (c : case) : bool := rac_in_fragment (cfix c) (cfg_of (ccfg c)) repo_budget (cin c).
 
 Definition check_case (c : case) : bool :=
   match ckind c with
@@ -109,21 +114,23 @@ Definition check_case (c : case) : bool :=
 
 (* the literal reading of the property: the configured value when one is present (nil, empty map,
    empty list count as absent), otherwise the default text as written; without a default the
-   (empty) configured value, i.e. nothing for nil *)
-Definition spec_resolve (cfg : bytes -> cval) (exp : bytes) : res bytes :=
+   (empty) configured value, i.e. nothing for nil.  "The configured value" as a text is what the callback of
+   the tree at hand writes for it (format_cfg: for a float64, %v's text before the repair D-C17g, plain digits
+   after it; that the text reads back as the same value is C17's subject) *)
+Definition spec_resolve (fx : bool) (cfg : bytes -> cval) (exp : bytes) : res bytes :=
   let (key, dflt) := split_first b_colon exp in
   let v := cfg key in
   if absent v then
     match dflt with
     | Some (c :: d) => Ok (c :: d)
-    | _ => match v with VNull => Ok [] | _ => format_any v end
+    | _ => match v with VNull => Ok [] | _ => format_cfg fx v end
     end
-  else format_any v.
+  else format_cfg fx v.
 
 Definition spec_fun (c : case) : bytes -> res bytes :=
   match ckind c with
   | 0%nat => table_fun (ctable c)
-  | _ => spec_resolve (cfg_of (ccfg c))
+  | _ => spec_resolve (cfix c) (cfg_of (ccfg c))
   end.
 
 Definition strict_applies (c : case) : bool :=
@@ -165,28 +172,66 @@ Definition count_infrag (cs : list case) : list nat :=
                             | 3%nat => val_in_fragment (cvobs c)
                             | _ => false end) cs)].
 
+(* e2e cases in whose run a float64 was spliced on which the two variants of the callback differ (%v writes an
+   exponent form): the stage repaired by D-C17g is exercised *)
+Definition step_float_eform (cfg : bytes -> cval) (exp : bytes) : bool :=
+  let (key, dflt) := split_first b_colon exp in
+  let v := cfg key in
+  match (if absent v then match dflt with Some (c :: d) => parse_any (c :: d) | _ => Ok v end else Ok v) with
+  | Ok (VDec m e) => negb (beqb (fmt_float_f m e) (fmt_float_v m e))
+  | _ => false
+  end.
+
+Fixpoint rac_float_eform (fx : bool) (cfg : bytes -> cval) (fuel : nat) (s : bytes) : bool :=
+  match find_first b_dollar s with
+  | None => false
+  | Some (i, n) =>
+    match fuel with
+    | O => false
+    | S k =>
+      let elr := firstn n (skipn i s) in
+      if step_float_eform cfg (content elr) then true
+      else match resolve fx cfg (content elr) with
+           | Ok r => rac_float_eform fx cfg k (replace_first s elr r)
+           | _ => false
+           end
+    end
+  end.
+
+Definition count_float_eform (cs : list case) : list nat :=
+  [length (filter (fun c => match ckind c with
+                            | 1%nat => e2e_in_fragment c && rac_float_eform (cfix c) (cfg_of (ccfg c)) repo_budget (cin c)
+                            | _ => false end) cs)].
+
 (* ---- known-finding classes: which non-canonical default texts were actually used ---------
    (the default text can be the product of an inner substitution, so this is computed along the
    run of the model, not read off the tag).  0 = canonical; 1 number-like, 2 bool-like in another
    letter case, 3 quoted, 4 bracketed, 5 a lone quote character (ParseAny panics), 6 other *)
-Definition default_class (d : bytes) : nat :=
-  if canonical_text d then 0%nat
+(* the default comes out as written: Strconv.canonical_text with the callback's formatting *)
+Definition canonical_cfg (fx : bool) (s : bytes) : bool :=
+  match parse_any s with
+  | Ok v => match format_cfg fx v with Ok t => beqb t s | _ => false end
+  | _ => false
+  end.
+
+Definition default_class (fx : bool) (d : bytes) : nat :=
+  if canonical_cfg fx d then 0%nat
   else if is_quoted d then (match d with [_] => 5%nat | _ => 3%nat end)
   else if bracketed d then 4%nat
   else if beqb (map lower_ascii d) lit_true || beqb (map lower_ascii d) lit_false then 2%nat
   else if is_number d then 1%nat
   else 6%nat.
 
-Definition used_default_class (cfg : bytes -> cval) (exp : bytes) : nat :=
+Definition used_default_class (fx : bool) (cfg : bytes -> cval) (exp : bytes) : nat :=
   let (key, dflt) := split_first b_colon exp in
   if absent (cfg key) then
     match dflt with
-    | Some (c :: d) => default_class (c :: d)
+    | Some (c :: d) => default_class fx (c :: d)
     | _ => 0%nat
     end
   else 0%nat.
 
-Fixpoint rac_classes (cfg : bytes -> cval) (fuel : nat) (s : bytes) : list nat :=
+Fixpoint rac_classes (fx : bool) (cfg : bytes -> cval) (fuel : nat) (s : bytes) : list nat :=
   match find_first b_dollar s with
   | None => []
   | Some (i, n) =>
@@ -194,9 +239,9 @@ Fixpoint rac_classes (cfg : bytes -> cval) (fuel : nat) (s : bytes) : list nat :
     | O => []
     | S k =>
       let elr := firstn n (skipn i s) in
-      used_default_class cfg (content elr) ::
-        match resolve cfg (content elr) with
-        | Ok r => rac_classes cfg k (replace_first s elr r)
+      used_default_class fx cfg (content elr) ::
+        match resolve fx cfg (content elr) with
+        | Ok r => rac_classes fx cfg k (replace_first s elr r)
         | _ => []
         end
     end
@@ -209,6 +254,6 @@ Definition kf_codes (cs : list case) : list nat :=
     | 1%nat =>
       if oracle_case c then []
       else flat_map (fun k => [cid c; k])
-               (nodup Nat.eq_dec (filter (fun k => negb (Nat.eqb k 0)) (rac_classes (cfg_of (ccfg c)) repo_budget (cin c))))
+               (nodup Nat.eq_dec (filter (fun k => negb (Nat.eqb k 0)) (rac_classes (cfix c) (cfg_of (ccfg c)) repo_budget (cin c))))
     | _ => []
     end) cs.
